@@ -130,6 +130,9 @@ type World struct {
 
 	Sy *Syncers
 	T0 time.Time
+	// ReleaseClearedAt: virtual time at which, during the last Drain,
+	// no block release was pending any more.
+	ReleaseClearedAt time.Time
 }
 
 // NewWorld builds a store on media (fresh if nil).
